@@ -258,7 +258,37 @@ def analyse_dir(outdir):
 
 # ----------------------------------------------------------------------------- shrinking
 
+def weak_disciplined(ops):
+    """single-delete discipline (C13): per key exactly one put between weak deletes, no
+    overwrite, no strong delete, and no reopen that would lose unflushed writes"""
+    armed = {}
+    prev = None
+    for o in ops:
+        t = o.split()
+        if t[0] == "put":
+            if armed.get(t[1], 0) != 0:
+                return False
+            armed[t[1]] = 1
+        elif t[0] == "wdel":
+            if armed.get(t[1], 0) != 1:
+                return False
+            armed[t[1]] = 0
+        elif t[0] == "del":
+            return False
+        elif t[0] == "reopen" and not (prev or "").startswith("flushactive"):
+            return False
+        prev = o
+    return True
+
+
+VALIDATORS = {"weak": weak_disciplined}
+CURRENT_VALIDATOR = [None]
+
+
 def still_fails(ops, cfgline, workdir, pred):
+    if CURRENT_VALIDATOR[0] and not CURRENT_VALIDATOR[0](ops):
+        return False
+    os.makedirs(workdir, exist_ok=True)
     path = os.path.join(workdir, "shrink.hist")
     open(path, "w").write(cfgline + "\n" + "\n".join(ops) + "\n")
     fails, _, _, _ = run_one(path, workdir, "shrink")
